@@ -47,6 +47,10 @@ def canon_action(a):
         a["flow"].pop("uuid", None)
     if isinstance(a.get("templating"), dict):
         a["templating"].pop("uuid", None)
+    # optional flags/labels whose value is false or empty mean the same as their absence
+    for k in ("all_urns", "topic", "templating", "all_groups", "category", "attachments", "quick_replies"):
+        if k in a and not a[k]:
+            a.pop(k)
     return a
 
 
